@@ -27,8 +27,12 @@
  *   C30.success_iff_zero.<order>   execute() returns normally <=> the child exited with 0
  *   C30.signal_reported.<order>    child killed by a signal => the error says so ("signal")
  *   C30.liveness.deadlock          every thread of the process sleeps for ever in a futex wait
- *                                  (state based; the 120 s time budget alone is inconclusive)
+ *                                  (state based; the 40 s time budget alone is inconclusive)
  *   C30.crash                      the process running the managers died
+ *   C30.asan                       AddressSanitizer report (unit pm_asan: same harness, the
+ *                                  sources of libTFELSystem compiled in with -fsanitize=address)
+ *   crash/asan/deadlock keys get the suffix .concurrent_managers_destroyed_after_execute
+ *   when >= 2 managers are each destroyed right after their execute() (tfel-check's pattern)
  * Observations that are counted but are not verdicts: wrong exit value in the
  * message, exit reported as signal death.
  *
@@ -50,6 +54,10 @@
 
 #ifndef THELFER_TFEL_VERIF
 #error "this harness must be compiled with -DTHELFER_TFEL_VERIF"
+#endif
+
+#ifdef C30_ASAN
+extern "C" const char* __asan_default_options() { return "detect_leaks=0:abort_on_error=0:exitcode=67"; }
 #endif
 
 namespace {
@@ -101,11 +109,20 @@ namespace {
   };
   struct Script {
     int policy = ALL;
+    //! true: every manager lives until all execute() calls are over; false: a
+    //! manager is destroyed as soon as its execute() returns (tfel-check)
+    bool barrier = false;
+    //! managers are constructed in index order and every sigChildHandler is
+    //! held at its entry until one more manager has been destroyed
+    bool holdUntilDestroyed = false;
     std::vector<Cmd> cmds;
   };
 
   // ------------------------------------------------------------ fork interposition
   thread_local pid_t lastChild = -1;
+  //! result of the last blocking waitpid (options == 0) of this thread
+  thread_local pid_t lastWaitRet = 0;
+  thread_local int lastWaitErrno = 0;
 
   // ------------------------------------------------------------ hook
   struct Ctx {
@@ -113,11 +130,16 @@ namespace {
     bool achieved = false;     // the requested order was obtained
     bool truthChecked = false, truthOk = true;
     bool holding = false;
+    long entriesBefore = 0;
+    int waitErrno = 0;  // errno left by the waitpid of ProcessManager::wait (0: it returned a status)
     sigset_t saved;
     std::string truth;
   };
   thread_local Ctx* tctx = nullptr;
   std::atomic<int> holdHandlers{0};
+  std::atomic<int> constructed{0}, executed{0}, destroyed{0};
+  int nManagers = 0;
+  bool holdUntilDestroyedFlag = false;
   std::atomic<long> handlerEntries{0}, handlerExits{0};
 
   void sleepNs(const long ns) {
@@ -151,6 +173,10 @@ namespace {
     if (std::strcmp(name, "pm.sigchld.entry") == 0) {
       handlerEntries.fetch_add(1);
       for (int k = 0; k != 3000 && holdHandlers.load() > 0; ++k) sleepNs(100000);
+      if (holdUntilDestroyedFlag) {
+        const int seen = destroyed.load();
+        for (int k = 0; k != 3000 && destroyed.load() == seen && seen < nManagers; ++k) sleepNs(100000);
+      }
       return;
     }
     if (std::strcmp(name, "pm.sigchld.exit") == 0) {
@@ -162,6 +188,7 @@ namespace {
     const pid_t pid = lastChild;
     if (std::strcmp(name, "pm.wait.before_waitpid") == 0) {
       siginfo_t info;
+      ctx->entriesBefore = handlerEntries.load();
       if (ctx->cmd.order == HANDLER_FIRST) {
         // hold the waiter until a handler has reaped the child (3 s at most)
         for (int k = 0; k != 30000; ++k) {
@@ -201,6 +228,12 @@ namespace {
       return;
     }
     if (std::strcmp(name, "pm.wait.after_waitpid") == 0) {
+      ctx->waitErrno = lastWaitRet == -1 ? lastWaitErrno : 0;  // see the waitpid interposer
+      if (holdUntilDestroyedFlag) {
+        // let a SIGCHLD handler start (it is then held at the entry of the
+        // first manager's sigChildHandler) before this manager goes on and is destroyed
+        for (int k = 0; k != 3000 && handlerEntries.load() == ctx->entriesBefore; ++k) sleepNs(100000);
+      }
       if (ctx->holding) {
         ctx->holding = false;
         holdHandlers.fetch_sub(1);
@@ -222,6 +255,7 @@ namespace {
     bool returned = false;  // execute returned normally
     std::string what;
     bool achieved = false, truthChecked = false, truthOk = true;
+    int waitErrno = 0;
     std::string truth;
   };
 
@@ -239,17 +273,31 @@ namespace {
     }
   }
 
-  __attribute__((noinline)) void launch(const Cmd& cmd, const std::string& out, Outcome& o) {
+  __attribute__((noinline)) void launch(const Script& s, const int i, const Cmd& cmd, const std::string& out,
+                                        Outcome& o) {
     // as TestLauncher::execute
     try {
+      if (s.holdUntilDestroyed) {
+        for (int k = 0; k != 100000 && constructed.load() != i; ++k) sleepNs(100000);
+      }
       tfel::system::ProcessManager manager;
-      manager.execute("", commandOf(cmd), "", out, {{"C30_ENV", "1"}});
-      o.returned = true;
+      constructed.fetch_add(1);
+      try {
+        manager.execute("", commandOf(cmd), "", out, {{"C30_ENV", "1"}});
+        o.returned = true;
+      } catch (std::exception& e) {
+        o.what = e.what();
+      }
+      executed.fetch_add(1);
+      if (s.barrier) {
+        while (executed.load() < nManagers) sleepNs(200000);
+      }
     } catch (std::exception& e) {
       o.what = e.what();
     } catch (...) {
       o.what = "unknown exception";
     }
+    destroyed.fetch_add(1);
   }
 
   void worker(const Script& s, const int i, const std::string& dir, Outcome& o) {
@@ -262,23 +310,29 @@ namespace {
     tctx = &ctx;
     const std::string out = ctx.cmd.toFile ? dir + "/out" + std::to_string(i) + ".txt" : std::string("/dev/null");
     if (ctx.cmd.poison >= 0) poisonStack(ctx.cmd.poison);
-    launch(ctx.cmd, out, o);
+    launch(s, i, ctx.cmd, out, o);
     tctx = nullptr;
     if (ctx.holding) holdHandlers.fetch_sub(1);
     o.achieved = ctx.achieved;
+    o.waitErrno = ctx.waitErrno;
     o.truthChecked = ctx.truthChecked;
     o.truthOk = ctx.truthOk;
     o.truth = ctx.truth;
   }
 
   std::string orderKey(const Cmd& c, const Outcome& o) {
-    if (c.order == HANDLER_FIRST && o.achieved) return "handler_reaped_before_waitpid";
+    // observed class, whatever the order asked for: the waitpid of
+    // ProcessManager::wait did not return a status because a SIGCHLD handler
+    // (any thread) had reaped the child first
+    if (o.waitErrno == ECHILD || o.waitErrno == EINTR) return "handler_reaped_before_waitpid";
     if (c.order == HANDLER_FIRST || c.order == WAITER_FIRST)
       return o.achieved ? orderNames[c.order] : std::string(orderNames[c.order]) + "_not_achieved";
     return orderNames[c.order];
   }
 
   void runCase(const Script& s, const int fd) {
+    nManagers = static_cast<int>(s.cmds.size());
+    holdUntilDestroyedFlag = s.holdUntilDestroyed;
     tfel_verif_point = &c30Hook;
     char tmpl[] = "c30.XXXXXX";
     std::string dir = ".";
@@ -370,9 +424,9 @@ namespace {
   std::map<std::string, int> failuresSeen, shrinkExecutions;
 
   void executeOnce(verif::Case& c, const Script& s) {
-    // 120 s is a time budget (inconclusive when hit); a dead-lock is recognised
+    // 40 s is a time budget (inconclusive when hit); a dead-lock is recognised
     // from the state of the threads (forkcase.hxx), not from the clock
-    const auto o = verif::runForked([&s](const int fd) { runCase(s, fd); }, 120., true);
+    const auto o = verif::runForked([&s](const int fd) { runCase(s, fd); }, 40., true);
     const auto tail = [&o] {
       std::string t = o.text.size() > 600 ? o.text.substr(o.text.size() - 600) : o.text;
       for (auto& ch : t)
@@ -382,12 +436,28 @@ namespace {
     if (std::getenv("VERIF_DUMP_CHILD") != nullptr) std::cerr << o.text << std::endl;
     if (o.how == verif::ForkOutcome::FORK_FAILED) c.discard();
     if (o.how == verif::ForkOutcome::TIMEOUT) {
+      if (std::getenv("VERIF_DUMP_CHILD") != nullptr) std::cerr << "TIMEOUT " << o.states << std::endl;
       c.tag("time_budget_hit_inconclusive");
       c.discard();
     }
-    c.check(o.how != verif::ForkOutcome::DEADLOCK, "C30.liveness.deadlock",
-            "every thread of the process sleeps for ever in a futex wait; output: " + tail());
-    c.check(o.how != verif::ForkOutcome::SIGNALED, "C30.crash",
+    // input class of the crash/dead-lock keys: several managers, each destroyed
+    // as soon as its execute() returns while handlers may run in other threads
+    const std::string cls = (!s.barrier && s.cmds.size() >= 2) ? ".concurrent_managers_destroyed_after_execute" : "";
+    {
+      // only in the unit built with -fsanitize=address (pm_asan)
+      const auto pa = o.text.find("ERROR: AddressSanitizer: ");
+      if (pa != std::string::npos) {
+        auto kind = o.text.substr(pa + 25, 40);
+        kind = kind.substr(0, kind.find_first_of(" \n"));
+        auto rep = o.text.substr(pa, 1800);
+        for (auto& ch : rep)
+          if (ch == '\n') ch = '|';
+        c.check(false, "C30.asan" + cls, kind + ": " + rep);
+      }
+    }
+    c.check(o.how != verif::ForkOutcome::DEADLOCK, "C30.liveness.deadlock" + cls,
+            "every thread of the process sleeps for ever in a futex wait " + o.states + "; output: " + tail());
+    c.check(o.how != verif::ForkOutcome::SIGNALED, "C30.crash" + cls,
             "process killed by signal " + std::to_string(o.code) + "; output: " + tail());
     const auto pf = o.text.find("\nFAIL ");
     if (pf != std::string::npos) {
@@ -396,7 +466,7 @@ namespace {
       const auto sp = line.find(' ');
       c.check(false, line.substr(0, sp), sp == std::string::npos ? "" : line.substr(sp + 1));
     }
-    c.check(o.code == 0 && o.text.find("\nPASS\n") != std::string::npos, "C30.crash",
+    c.check(o.code == 0 && o.text.find("\nPASS\n") != std::string::npos, "C30.crash" + cls,
             "process exited with code " + std::to_string(o.code) + " without verdict; output: " + tail());
     const auto stat = [&o](const std::string& k) {
       const auto p = o.text.find(" " + k + "=");
@@ -419,13 +489,16 @@ namespace {
       return;
     }
     if (failuresSeen[c.sub()] != 0 && ++shrinkExecutions[c.sub()] > 60) return;
+    // shrinking selects among many candidates: a stricter confirmation keeps
+    // it from drifting to scripts that fail only often
+    const int needed = failuresSeen[c.sub()] != 0 ? 10 : 4;
     for (int attempt = 0;; ++attempt) {
       try {
         executeOnce(c, s);
         if (attempt != 0) c.tag("flaky_observation");
         return;
       } catch (const verif::Failure&) {
-        if (attempt == 3) {
+        if (attempt == needed - 1) {
           ++failuresSeen[c.sub()];
           throw;
         }
@@ -472,9 +545,13 @@ VERIF_SUB(orders) {
   Script s;
   const int n = managersTable[c.pick(sizeof(managersTable) / sizeof(int), "managers_idx")];
   s.policy = static_cast<int>(c.integer(0, 4, "sigchld_policy"));
+  s.barrier = c.boolean("barrier");
+  s.holdUntilDestroyed = !s.barrier && n >= 2 && s.policy != NOBODY && c.chance(1, 3, "hold_until_destroyed");
   for (int i = 0; i != n; ++i) s.cmds.push_back(drawCmd(c, s.policy));
   c.tag("managers." + std::to_string(n));
   c.tag("policy." + std::to_string(s.policy));
+  c.tag(s.barrier ? "lifetime.barrier" : "lifetime.destroyed_after_execute");
+  if (s.holdUntilDestroyed) c.tag("handlers_held_until_a_manager_is_destroyed");
   execute(c, s);
 }
 
@@ -486,10 +563,28 @@ extern "C" pid_t fork(void) noexcept {
   return p;
 }
 
+//! records what the blocking waitpid of ProcessManager::wait returned
+extern "C" pid_t waitpid(pid_t pid, int* status, int options) {
+  using waitpid_t = pid_t (*)(pid_t, int*, int);
+  static waitpid_t real = reinterpret_cast<waitpid_t>(::dlsym(RTLD_NEXT, "waitpid"));
+  const pid_t r = real(pid, status, options);
+  if (options == 0) {  // never the WNOHANG calls of the signal handler
+    const int e = errno;
+    lastWaitRet = r;
+    lastWaitErrno = e;
+    errno = e;
+  }
+  return r;
+}
+
 int main(int argc, char** argv) {
   if (argc >= 2 && std::string(argv[1]) == "--child") return childMain(argc, argv);
   char buf[4096];
   const auto n = ::readlink("/proc/self/exe", buf, sizeof buf - 1);
   selfExe = n > 0 ? std::string(buf, static_cast<std::size_t>(n)) : std::string(argv[0]);
+#ifdef C30_ASAN
+  return verif::main(argc, argv, "C30_pm_asan");
+#else
   return verif::main(argc, argv, "C30_pm");
+#endif
 }
